@@ -145,6 +145,44 @@ Proof.
   assert (0 <= sin theta_star) by (apply sin_ge_0; pose proof PI_RGT_0; lra).
   nra.
 Qed.
+(* the asin-domain guard of the forward relation follows from the residual bound: no separate condition on theta_i *)
+Theorem forward_guard_from_residual : -1 <= n_star * sin theta_star <= 1.
+Proof.
+  pose proof residual_form as Hr. apply Rabs_le_inv in Hr.
+  assert (Hr0 : 0 <= r) by (pose proof residual_form as H; eapply Rle_trans; [apply Rabs_pos | exact H]).
+  assert (Hse : 0 <= sin e) by (apply sin_ge_0; pose proof PI_RGT_0; lra).
+  assert (HsM1 : sin M <= 1) by apply SIN_bound.
+  lra.
+Qed.
+
+Theorem forward_relation_after_set :
+  sin (theta_external_gen n_along s') = n_star * sin (b_theta s').
+Proof.
+  destruct after_set_theta_external as [Et Ep].
+  unfold theta_external_gen. rewrite Et.
+  pose proof (snell_forward_relation n_along s' theta_star) as H. cbv zeta in H. rewrite Ep in H.
+  apply H. exact forward_guard_from_residual.
+Qed.
+
+(* |theta_i| <= |theta_e| as ANGLES, up to r / cos M (for an index >= 1) *)
+Theorem internal_angle_not_larger : 1 <= n_star -> b_theta s' <= e + r / cos M.
+Proof.
+  intros Hn. pose proof (internal_not_larger Hn) as Hs. destruct after_set_theta_external as [Et _]. rewrite Et in *.
+  assert (Hr0 : 0 <= r) by (pose proof residual_form as H; eapply Rle_trans; [apply Rabs_pos | exact H]).
+  assert (HcM : 0 < cos M) by (apply cos_gt_0; pose proof PI_RGT_0; lra).
+  assert (Hq : 0 <= r / cos M) by (apply Rmult_le_pos; [exact Hr0 | left; apply Rinv_0_lt_compat; exact HcM]).
+  destruct (Rle_dec theta_star e) as [Hle | Hgt]; [lra |]. apply Rnot_le_lt in Hgt.
+  (* theta_star <= M since sin theta_star <= sin M *)
+  assert (HtM : theta_star <= M).
+  { destruct (Rle_dec theta_star M) as [H | H]; [exact H | exfalso]. apply Rnot_le_lt in H.
+    assert (sin M < sin theta_star) by (apply sin_increasing_1; pose proof PI_RGT_0; lra). lra. }
+  pose proof (sin_expanding M e theta_star) as Hexp.
+  assert (He2 : cos M * Rabs (theta_star - e) <= Rabs (sin theta_star - sin e)) by (apply Hexp; lra).
+  assert (Hinc : sin e < sin theta_star) by (apply sin_increasing_1; pose proof PI_RGT_0; lra).
+  rewrite !Rabs_right in He2 by lra.
+  apply Rmult_le_reg_l with (cos M); [exact HcM |].
+  replace (cos M * (e + r / cos M)) with (cos M * e + r) by (field; lra). lra.
+Qed.
 End RoundTrip.
 
 (* the property's numbers: residual <= 3e-8 and theta_e in [0, 80 deg] give a read-back within 1e-5 deg *)
